@@ -24,8 +24,10 @@ RULE = ("a scenario = (continuum, dissimilarity, sampler, mode, n_samples, preci
         "free running with 0-5 ms jitter under sys.setswitchinterval(1e-5); the genuine ThreadPoolExecutor with "
         "os.cpu_count patched; GIL hand-offs injected (sys.monitoring LINE events) at random statement boundaries of the "
         "library's Python code inside the jobs; every run builds fresh continuum / dissimilarity objects, and two extra runs "
-        "repeat the computation on the very objects of the reference run; one scenario in five is large and sparse enough "
-        "for the fast mode to record a finite window; plus plain repetition in the same process; results must be bit-identical.  A set of "
+        "repeat the computation on the very objects of the reference run; one scenario in seven is large and sparse enough "
+        "for the fast mode to record a finite window, one has all annotators identical (observed disorder 0), one is crowded "
+        "(4-5 annotators with two long units each: the shuffle sampler runs out of free pivot zones), one asks for a precision "
+        "that triggers a second batch after a first batch of 5-30 samples (worker counts 1,2,3,4,5,8,16); plus plain repetition in the same process; results must be bit-identical.  A set of "
         "common scenarios is also run by every worker process, each under a different PYTHONHASHSEED (0, 1, 2, 3, "
         "random...) and the digests are compared across processes. non-trivial = scenario with >= 2 jobs; distinct = "
         "distinct (scenario, schedule)")
@@ -38,7 +40,7 @@ ASSUMPTIONS = [
 ]
 HASH_SEEDS = ["0", "1", "2", "3", "random", "12345", "random", "7", "99", "random", "4242", "31337", "random", "5", "6", "8"]
 POLICIES = [("fifo", 1), ("fifo", 2), ("fifo", 16), ("lifo", 1), ("lifo", 3), ("first-last", 1), ("first-last", 5),
-            ("random", 1), ("random", 2), ("random", 8), ("jitter", 3), ("jitter", 16), ("real", 2), ("real", 16),
+            ("random", 1), ("random", 2), ("random", 8), ("jitter", 3), ("jitter", 16), ("real", 2), ("real", 16), ("real", 4), ("fifo", 4),
             ("yield", 3), ("yield", 8)]
 
 
@@ -85,6 +87,7 @@ def result_vector(ctx, sc, policy, workers, sched_seed, objects=None):
     old_switch = sys.getswitchinterval()
     sched.take_records()
     injector = None
+    os.cpu_count = lambda: workers     # the library sizes its pool (and anything derived from it) from os.cpu_count()
     if policy == "yield":
         # free-running pool + GIL hand-offs injected at random statement boundaries of the library inside the jobs
         import pygamma_agreement
@@ -157,6 +160,30 @@ def gen_identical_scenario(rng):
             "mode": rng.choice(["exact", "soft"]), "n_samples": rng.choice([6, 12, 20]), "precision": None, "np_seed": rng.randrange(2 ** 31)}
 
 
+def gen_crowded_scenario(rng):
+    """More annotators than the continuum has room for: the shuffle sampler runs out of free zones for its pivots and
+    takes its fallback path (and the statistical sampler piles units up)."""
+    n = rng.choice([4, 5, 5])
+    ann = {}
+    for a in cases.ANNOTATOR_NAMES[:n]:
+        s0 = float(rng.randrange(0, 6))
+        d0, d1 = float(rng.randrange(14, 22)), float(rng.randrange(14, 22))
+        ann[a] = [[s0, s0 + d0, rng.choice(cases.LABELS_SMALL)], [s0 + d0 + 1.0, s0 + d0 + 1.0 + d1, rng.choice(cases.LABELS_SMALL)]]
+    return {"continuum": {"ann": ann, "family": "crowded"},
+            "dissim": {"kind": "combined", "alpha": 1.0, "beta": 1.0, "delta": 1.0, "pos": None, "cat": None},
+            "ground_truth": None, "ground_truth_as": "list", "sampler": rng.choice(["shuffle_float", "shuffle_int", "shuffle_float", "statistical"]),
+            "mode": rng.choice(["exact", "soft"]), "n_samples": rng.choice([4, 6, 10]), "precision": None, "np_seed": rng.randrange(2 ** 31)}
+
+
+def gen_second_batch_scenario(rng):
+    """A precision level that calls for a second batch of samples, with first-batch sizes that are not multiples of small
+    worker counts: what the first batch consumed from the random stream must not depend on how it was submitted."""
+    cspec = cases.gen_continuum(rng, n_annot=2, sizes=[3, rng.choice([2, 3])], family=rng.choice(["grid", "dyadic"]), labels=cases.LABELS_SMALL)
+    return {"continuum": cspec, "dissim": {"kind": "positional", "delta": 1.0}, "ground_truth": None, "ground_truth_as": "list",
+            "sampler": rng.choice(["statistical", "shuffle_float"]), "mode": "exact", "n_samples": rng.choice([5, 7, 9, 11, 13, 30]),
+            "precision": rng.choice([0.05, 0.08, 0.1]), "np_seed": rng.randrange(2 ** 31)}
+
+
 def gen_scenario(rng, dspecs):
     dspec = rng.choice(dspecs)
     labels = cases.dissim_labels(dspec) or cases.LABELS_SMALL
@@ -195,7 +222,7 @@ def check_case(ctx, case):
     schedules = [["repeat-same-objects:fifo", 1, 0], ["repeat-same-objects:lifo", 3, 1]] + schedules
     spare = None
     for k_run, (policy, workers, sseed) in enumerate(schedules):
-        if k_run >= 3 and ctx.out_of_time():
+        if k_run >= 4 and ctx.out_of_time():
             ctx.observe("schedules_dropped_for_time", "scenarios")      # a slow scenario: the remaining schedules are not run
             break
         try:
@@ -266,14 +293,17 @@ def run(ctx):
     dspecs.append({"kind": "combined", "alpha": 3.0, "beta": 1.0, "delta": 1.0, "pos": None, "cat": None})
     import resource
     for i in range(ctx.scale(14, 160)):
-        if ctx.out_of_time():
+        if i >= 4 and ctx.out_of_time():      # the first scenario of each special kind runs whatever the budget
             break
         if resource.getrusage(resource.RUSAGE_SELF).ru_maxrss > 3_500_000:     # kB: compiled kernels are never freed
             ctx.observe("stopped_early", "memory: compiled kernels of the fresh dissimilarity objects")
             break
-        sc = gen_windowed_scenario(rng, ctx.tier == "quick") if i % 5 == 4 else (gen_identical_scenario(rng) if i % 5 == 2 else gen_scenario(rng, dspecs))
-        ctx.observe("scenario_kind", "fast-windowed-size" if i % 5 == 4 else ("identical-annotators" if i % 5 == 2 else "small"))
-        k = ctx.scale(5, 8) if i % 5 != 4 else ctx.scale(3, 5)
+        kind = ["fast-windowed-size", "identical-annotators", "crowded", "second-batch", "small", "small", "small"][i % 7]
+        sc = {"fast-windowed-size": lambda: gen_windowed_scenario(rng, ctx.tier == "quick"), "identical-annotators": lambda: gen_identical_scenario(rng),
+              "crowded": lambda: gen_crowded_scenario(rng), "second-batch": lambda: gen_second_batch_scenario(rng),
+              "small": lambda: gen_scenario(rng, dspecs)}[kind]()
+        ctx.observe("scenario_kind", kind)
+        k = ctx.scale(5, 8) if kind != "fast-windowed-size" else ctx.scale(3, 5)
         chosen = rng.sample(POLICIES, k)
         case = {"scenario": sc, "schedules": [[p, w, rng.randrange(10 ** 6)] for p, w in chosen]}
         ctx.begin_case(case)
